@@ -217,6 +217,10 @@ pub fn chunkings(text: &str, how: &str, r: &mut Rng) -> Vec<Vec<String>> {
     if how == "none" || n <= 1 {
         return out;
     }
+    if how == "chars" {
+        // only the all-1-character chunking (a suspension at every character boundary)
+        return vec![cut(&|_| true)];
+    }
     if how == "all" && n <= 7 {
         for m in 1u32..(1u32 << (n - 1)) {
             out.push(cut(&|i| (m >> i) & 1 == 1));
